@@ -298,7 +298,7 @@ fn ref_extend<K: Kit>(rig: &Rig<K>, tree: &TreeSnap<K>, q: &K::S, added: Option<
     }
 }
 
-fn c16<K: Kit>(tier: &str, idx: usize, st: &Step<K>, rep: &mut Report) {
+pub(crate) fn c16<K: Kit>(tier: &str, idx: usize, st: &Step<K>, rep: &mut Report) {
     let pk = st.sc.params.pk;
     let name = pk.name();
     rep.count("traces_validated", 1);
@@ -326,7 +326,11 @@ fn c16<K: Kit>(tier: &str, idx: usize, st: &Step<K>, rep: &mut Report) {
     } else {
         rep.count("bias0_iterations", 1);
     }
-    let q: K::S = if bias >= 1.0 { st.rig.goal.samples[st.letter as usize].clone() } else { st.rig.alphabet[st.letter as usize].clone() };
+    let q: K::S = match st.sample {
+        Some(s) => s.clone(),
+        None if bias >= 1.0 => st.rig.goal.samples[st.letter as usize].clone(),
+        None => st.rig.alphabet[st.letter as usize].clone(),
+    };
     match (st.pre, st.post) {
         (Snap::Tree(pre), Snap::Tree(post)) => {
             if post.len() > pre.len() + 1 {
@@ -422,7 +426,7 @@ fn c16<K: Kit>(tier: &str, idx: usize, st: &Step<K>, rep: &mut Report) {
 // ----------------------------------------------------------------------------------------------
 // C17: RRT* choose-parent / rewire reference
 
-fn c17<K: Kit>(tier: &str, idx: usize, st: &Step<K>, rep: &mut Report) {
+pub(crate) fn c17<K: Kit>(tier: &str, idx: usize, st: &Step<K>, rep: &mut Report) {
     let (Snap::Tree(pre), Snap::Tree(post)) = (st.pre, st.post) else { return };
     rep.count("traces_validated", 1);
     let mut fail = |key: &str, what: String, rep: &mut Report| {
@@ -475,7 +479,11 @@ fn c17<K: Kit>(tier: &str, idx: usize, st: &Step<K>, rep: &mut Report) {
     }
     // nearest set w.r.t. the sample
     let bias = st.sc.params.bias;
-    let q: K::S = if bias >= 1.0 { st.rig.goal.samples[st.letter as usize].clone() } else { st.rig.alphabet[st.letter as usize].clone() };
+    let q: K::S = match st.sample {
+        Some(s) => s.clone(),
+        None if bias >= 1.0 => st.rig.goal.samples[st.letter as usize].clone(),
+        None => st.rig.alphabet[st.letter as usize].clone(),
+    };
     let dq: Vec<f64> = pre.iter().map(|(s, _, _)| sp.distance(s, &q)).collect();
     let minq = dq.iter().cloned().fold(f64::INFINITY, f64::min);
     let near: Vec<usize> = (0..pre.len()).filter(|&i| dq[i] <= minq * (1.0 + REL) + 1e-15).collect();
@@ -883,7 +891,7 @@ fn c15_one_landing<K: Kit>(tier: &'static str, idx: usize, sc: &Scenario, seq: &
             if seams::landed().is_some() {
                 rep.count("deadline_landings_checked", 1);
                 rep.count("traces_validated", 1);
-                let st = Step { sc, hist: seq, letter: 255, pre: &pre, post: &post, result: &result, rig: &rig, log_mark: 0, cb_before, cb_after, used: seq.len(), batch: true };
+                let st = Step { sc, hist: seq, letter: 255, pre: &pre, post: &post, result: &result, rig: &rig, log_mark: 0, cb_before, cb_after, used: seq.len(), batch: true, sample: None };
                 c15::<K>(tier, idx, &st, rep);
             }
         }
@@ -1006,10 +1014,14 @@ pub fn run(prop: &'static str, tier: &'static str) -> i32 {
             rep.merge(r);
         }
     }
+    if prop == "C16" || prop == "C17" {
+        // supplementary: every single iteration of deep seeded executions against the reference model
+        rep.merge(crate::props_deep::run_transitions(prop, tier));
+    }
     let must: Vec<&str> = match prop {
         "C15" => vec!["states_after_success", "states_after_timeout", "edges_checked", "zero_length_edges", "deep_runs", "deadline_landings_checked"],
-        "C16" => vec!["nodes_added", "nothing_added", "bias0_iterations", "bias1_iterations", "connect_direct_goal_hit", "connect_joined_growing_start", "connect_joined_growing_goal", "connect_first_extension_failed", "bias_audit_coin_flips"],
-        "C17" => vec!["rewires", "non_nearest_parent_chosen", "choose_parent_with_alternatives", "versus_paths_compared", "versus_star_strictly_shorter", "versus_seeded_runs"],
+        "C16" => vec!["nodes_added", "nothing_added", "bias0_iterations", "bias1_iterations", "connect_direct_goal_hit", "connect_joined_growing_start", "connect_joined_growing_goal", "connect_first_extension_failed", "bias_audit_coin_flips", "deep_transitions"],
+        "C17" => vec!["rewires", "non_nearest_parent_chosen", "choose_parent_with_alternatives", "versus_paths_compared", "versus_star_strictly_shorter", "versus_seeded_runs", "deep_transitions"],
         _ => vec![],
     };
     if prop == "C15" {
@@ -1120,7 +1132,7 @@ fn replay_one<K: Kit>(prop: &'static str, tier: &'static str, idx: usize, sc: &S
             let mut k = post.key();
             k.push(0);
             rep.distinct.insert(crate::report::h128(&k));
-            let st = Step { sc, hist, letter, pre: &pre, post: &post, result: &result, rig: &rig, log_mark, cb_before, cb_after, used, batch };
+            let st = Step { sc, hist, letter, pre: &pre, post: &post, result: &result, rig: &rig, log_mark, cb_before, cb_after, used, batch, sample: None };
             match prop {
                 "C15" => c15::<K>(tier, idx, &st, &mut rep),
                 "C16" => c16::<K>(tier, idx, &st, &mut rep),
